@@ -509,6 +509,26 @@ Definition run_value (p : oracle * list token) : out :=
               | POk (v, _) => OT "Value" [v]
               end
   end.
+(* gin.config.parse_value (config.py) over ConfigParser.parse_single_value (repaired code, F39): the value must be all
+   there is -- after it only newlines, comments and indentation up to the end marker *)
+Definition end_types : list ttype := [NEWLINE; NL; COMMENT; INDENT; DEDENT].
+Definition parse_single_value (o : oracle) (ts : list token) : pres out :=
+  match parse_value (value_fuel ts) o false ts with
+  | PErr e => PErr e
+  | POk (v, rest) =>
+      match skip (S (List.length rest)) end_types rest with
+      | PErr e => PErr e
+      | POk rest' => if cur_ty rest' ENDMARKER then POk v else syntax_here rest'
+      end
+  end.
+(* the code before the repair stopped after the first complete value *)
+Definition parse_single_value_orig (o : oracle) (ts : list token) : pres out :=
+  match parse_value (value_fuel ts) o false ts with PErr e => PErr e | POk (v, _) => POk v end.
+Definition run_value_api (p : oracle * list token) : out :=
+  match settle (snd p) with
+  | PErr e => perr_out e
+  | POk ts => match parse_single_value (fst p) ts with PErr e => perr_out e | POk v => OT "Value" [v] end
+  end.
 Definition run_stmts (p : oracle * list token) : out :=
   match settle (snd p) with
   | PErr e => OL [perr_out e]
